@@ -7,11 +7,17 @@ B1  TLC explores MC_FiberLaw (FiberLaw.tla): every assembly of 2-4 of four diffe
 B2  the fibre configurations and every ordering TLC emits are realised with real Fiber elements (loader-built from
     element JSON: scalar and per-frequency loss coefficient, lumped losses, connectors, att_in), a real Roadm express
     crossing and a real Edfa; each fibre crossing's per-channel loss is compared with the budget the spec emitted
-    (+/-3 udB), and the crossings are recorded.
+    (+/-3 udB), and the crossings are recorded.  The per-frequency tables are written as (frequency, value) pairs listed
+    by increasing frequency (F4) and by increasing wavelength (F3); the spec interpolates on the SET of pairs.
+    NoMemory histories: every fibre is crossed by a sequence of spectral informations (same end channels and count,
+    other inner channels, other powers) with Raman computation off and on; each later crossing is compared with the
+    same crossing on a fresh fibre.
 B3  the recorded crossings (B2 orderings, and every Fiber / Roadm / Edfa / Multiband crossing inside the real
     gnpy.topology.request.propagate on the shipped networks) are judged by Trace_LineElements: LossBudget, CdLinear,
     LatencyLinear, PmdQuadrature, PdlQuadrature against each element's own contribution measured by crossing it ALONE
-    from a zero state, and OrderIndependent over all orderings of an assembly.
+    from a zero state, ContribFromConfig (a span's latency / PMD^2 follow from ITS OWN length: length / (c / n),
+    pmd_coef^2 x length - also for the spans the auto-design cuts out of a long link: CORONET and a 390 km test link),
+    NoMemory, and OrderIndependent over all orderings of an assembly.
     Thorough tier only: Raman-on relational histories (LowPower, LumpedOnce, PumpsOnlyAddGain, MethodsAgree) on the
     shipped Raman fibre configurations, judged by the same trace specification.
 """
@@ -149,9 +155,75 @@ def replay_orders(conf, orders, chk):
     return [{'name': f'B2 assembly {g}', 'ev': ev} for g, ev in groups.items()]
 
 
+def fibre_memory_traces(conf, chk):
+    """NoMemory for fibres: each fibre of the emitted configuration is crossed by a sequence of spectral informations
+    (same first / last channel and channel count, different inner channels; different powers), Raman computation off and
+    on; every crossing after the first is compared by TLC with the same crossing on a FRESH fibre"""
+    from gnpy.core.info import create_arbitrary_spectral_information
+    from gnpy.core.parameters import SimParams
+    from gnpy.tools.json_io import load_equipments_and_configs, network_from_json
+    eq = load_equipments_and_configs(EX / 'eqpt_config.json', [], [])
+
+    def fibres():
+        net = network_from_json({'elements': [fiber_json(f, sp) for f, sp in conf['span'].items()], 'connections': []}, eq)
+        out = {}
+        for f in net.nodes():
+            f.ref_pch_in_dbm = 0.0
+            out[f.uid] = f
+        return out
+    f0 = np.array(conf['chanF'], dtype=float) * 1e9
+    inner = f0.copy()
+    inner[1:-1] = f0[1:-1] + np.where(np.arange(1, len(f0) - 1) % 2 == 1, -500e9, 500e9)      # other inner channels
+    combs = [(f0, 1e-5), (inner, 1e-5), (f0, 4e-5)]
+
+    def si(fr, p):
+        return create_arbitrary_spectral_information(frequency=fr, pch=p, baud_rate=32e9, slot_width=50e9, tx_osnr=40,
+                                                     tx_power=p, roll_off=0.15)
+    traces = []
+    try:
+        for flag in (False, True):
+            SimParams.set_params({'raman_params': {'flag': flag, 'method': 'perturbative', 'order': 2,
+                                                   'solver_spatial_resolution': 500, 'result_spatial_resolution': 10e3},
+                                  'nli_params': {'method': 'gn_model_analytic'}})
+            used = fibres()
+            for fid in sorted(used):
+                evs = []
+                for k, (fr, p) in enumerate(combs):
+                    chk.case(f'memory|{fid}|raman={int(flag)}|step={k}', nontrivial=k > 0)
+                    try:
+                        with Recording() as rec:
+                            used[fid](si(fr, p))
+                        e = L.fiber_event(rec.events[-1], flag, with_acc=False)
+                        if k > 0:
+                            with Recording() as rec2:
+                                fibres()[fid](si(fr, p))
+                            L.with_fresh_fiber_reference(e, L.fiber_event(rec2.events[-1], flag, with_acc=False))
+                    except Exception as ex:                              # noqa
+                        chk.violation(f'memory|{features(conf["span"][fid])}|raman={int(flag)}|exception|{type(ex).__name__}',
+                                      dict(fibre=fid, step=k, exception=traceback.format_exc()[-1200:]))
+                        break
+                    evs.append(e)
+                traces.append({'name': f'memory {fid} raman={int(flag)}', 'ev': evs})
+    finally:
+        SimParams.set_params({})
+    chk.cov['memory_histories'] = len(traces)
+    return traces
+
+
 # ----------------------------------------------------------------------------------------------------- B3 shipped
+def long_link_network():
+    """a two-ROADM line whose 390 km link is longer than the Span max_length: the auto-design splits it into spans"""
+    from harness.gnpy_util import line_or_mesh_json
+    from gnpy.tools.json_io import load_equipments_and_configs, network_from_json
+    from gnpy.tools.worker_utils import designed_network
+    eq = load_equipments_and_configs(EX / 'eqpt_config.json', [], [])
+    net = network_from_json(line_or_mesh_json(['A', 'B', 'C'], [('A', 'B', 390), ('B', 'C', 170)]), eq)
+    net, req, _ = designed_network(eq, net)
+    return eq, net, req
+
+
 def shipped_traces(chk, rng):
-    jobs = list(L.SHIPPED)
+    jobs = list(L.SHIPPED) + [('longLinkSplitByDesign', None, None, (), None)]
     npaths = 5 if chk.tier == 'quick' else 30
     max_ch = 8 if chk.tier == 'quick' else 16
     traces = []
@@ -159,7 +231,7 @@ def shipped_traces(chk, rng):
     for name, topo, eqpt, _, sim in jobs:
         L.set_sim(sim)
         try:
-            eq, net, req, _ = L.load_designed(topo, eqpt)
+            eq, net, req = long_link_network() if topo is None else L.load_designed(topo, eqpt)[:3]
             contrib = L.Contributions()
             ron = L.raman_on()
             few = 2 if (name == 'coronet' and chk.tier == 'quick') else npaths
@@ -340,6 +412,8 @@ def run(chk):
     lap('tlc')
     b2_traces = replay_orders(conf[0], orders, chk)
     lap('b2_replay')
+    mem = fibre_memory_traces(conf[0], chk)
+    b2_traces = b2_traces + mem
     report(chk, b2_traces, L.judge(chk, b2_traces, 'c05-trace-b2'), 'B2trace')
     lap('b2_judge')
     # ---- B3
@@ -364,6 +438,9 @@ def run(chk):
                'clauses are still judged and the relational Raman clauses apply (thorough tier)')
     chk.assume("an element's own contribution = what a deep copy of it leaves in a zero-state spectral information with the "
                'same channels (measured once per element and channel plan)')
+    chk.assume('ContribFromConfig: group index of the fibre model (FiberParams._n1 = 1.468) and c = 299792458 m/s convert a '
+               'configured length into latency; CD of a span is not restated from configuration (frequency-dependent '
+               'beta2 / beta3 model), it is only required to accumulate linearly and position-independently')
     chk.assume('RamanFiber elements are only crossed with Raman computation on (gnpy requires sim-params for them)')
     chk.assume('per-frequency loss coefficient: the configured table is interpolated linearly at the channel frequency by '
                'the harness for B3 (numpy.interp) and by the specification itself for B2 (exact on the model grid)')
@@ -415,6 +492,35 @@ def _mut_roadm_pdl_overwrite():
                     'spectral_info.pdl = sqrt(pdl_impairment ** 2) + 0 * spectral_info.pdl')
 
 
+def _mut_loss_table_misaligned():
+    """per-frequency loss: reference frequencies sorted, values left in listing order"""
+    import gnpy.core.parameters as P
+    L.mutate_source(P.FiberParams, '__init__', "self._f_loss_ref = asarray(kwargs['loss_coef']['frequency'])",
+                    "self._f_loss_ref = asarray(sorted(kwargs['loss_coef']['frequency']))")
+
+
+def _mut_latency_without_group_index():
+    """latency computed with the vacuum speed of light"""
+    import gnpy.core.parameters as P
+    L.mutate_source(P.FiberParams, '__init__', 'self._latency = self._length / (c / self._n1)', 'self._latency = self._length / c')
+
+
+def _mut_alpha_memoised():
+    """attenuation coefficients memoised per fibre on (first frequency, last frequency, channel count)"""
+    import gnpy.core.elements as E
+    orig = E.Fiber.alpha
+
+    def alpha(self, frequency):
+        f = np.atleast_1d(frequency)
+        key = (float(f[0]), float(f[-1]), f.size)
+        memo = self.__dict__.setdefault('_alpha_memo', {})
+        if key not in memo:
+            memo[key] = orig(self, frequency)
+        return memo[key]
+    E.Fiber.alpha = alpha
+
+
 MUTANTS = {'connector_dropped': _mut_connector_dropped, 'cd_assigned': _mut_cd_assigned, 'pmd_linear': _mut_pmd_linear,
            'lumped_twice': _mut_lumped_twice, 'latency_position': _mut_latency_position,
-           'roadm_pdl_overwrite': _mut_roadm_pdl_overwrite}
+           'roadm_pdl_overwrite': _mut_roadm_pdl_overwrite, 'loss_table_misaligned': _mut_loss_table_misaligned,
+           'latency_without_group_index': _mut_latency_without_group_index, 'alpha_memoised': _mut_alpha_memoised}
